@@ -11,6 +11,7 @@ import EG.Basic
     laws u       = Universe._laws
     ends l       = Link._vertices           (ordered; `none` = Python None)
     appliesTo W  = UniverseLaws._applies_to
+    rules W      = (edge_whitelist, mixed_links, cycles, multipath, multiverse) as a table index
     cache v      = Vertex.__qa_nb_cache     (insertion-ordered assoc list)
     caching      = Vertex.NEIGHBOR_CACHING
     attrs v      = user attributes (name id ↦ value-class id)
@@ -30,6 +31,7 @@ structure World where
   lcls : LId → LCls
   ends : LId → List (Option VId)
   appliesTo : WId → Option VId
+  rules : WId → Nat          -- the (immutable) rule attributes given at construction
   caching : Bool
   cache : VId → List (Key × List (Option VId))
 
@@ -46,6 +48,7 @@ def World.init : World where
   lcls := fun _ => .N
   ends := fun _ => []
   appliesTo := fun _ => none
+  rules := fun _ => 0
   caching := false
   cache := fun _ => []
 
